@@ -45,7 +45,12 @@ def _reverse_plugin() -> Any:
 
     class VfReverse(ReverseProxyBasePlugin):
         def routes(self) -> List[Any]:
-            return [(ROUTES['a'][0], [ROUTES['a'][1]]), (ROUTES['b'][0], [ROUTES['b'][1]])]
+            # two routes that lead to upstreams and one dynamic route the plugin answers by itself
+            return [(ROUTES['a'][0], [ROUTES['a'][1]]), (ROUTES['b'][0], [ROUTES['b'][1]]), r'/rl/']
+
+        def handle_route(self, request: Any, pattern: Any) -> Any:
+            body = b'literal;path=' + (request.path or b'')
+            return memoryview(b'HTTP/1.1 200 OK\r\nContent-Length: %d\r\nX-Literal: 1\r\n\r\n' % len(body) + body)
     _FLAGS['rp'] = VfReverse
     return VfReverse
 
@@ -107,7 +112,7 @@ def render_request(role: str, r: Dict[str, Any], i: int) -> bytes:
             target = b'/nothing-here-%d' % i
         hosth = b'localhost'
     else:
-        target = (b'/ra/' if r['to'] == 'a' else b'/rb/') + b'p%d' % i
+        target = {'a': b'/ra/', 'b': b'/rb/', 'lit': b'/rl/'}[r['to']] + b'p%d' % i
         hosth = b'front.test'
     head = method + b' ' + target + b' HTTP/1.1\r\n' + (b'Host: ' + hosth + b'\r\n' if not r.get('no_host') else b'') + b'X-Req: %d\r\n' % i
     if r.get('obs_text'):
@@ -166,6 +171,8 @@ def expected_upstream(role: str, r: Dict[str, Any], i: int) -> Optional[Tuple[st
     if role == 'reverse':
         if r['to'] == 'a':
             return 'ua.test', 8001, method + b' /ta HTTP/1.1'
+        if r['to'] == 'lit':
+            return None        # answered by the route plugin itself
         return 'ub.test', 80, method + b' /tb HTTP/1.1'
     return None
 
@@ -221,6 +228,11 @@ def evaluate(c: Dict[str, Any]) -> Tuple[List[Any], Dict[str, Any]]:
                     out.append(('response-from-wrong-origin-or-out-of-order', dict(feat, index=min(i, 2)),
                                 {'i': i, 'body': m['body'][:120]}, {'body': want}))
                     break
+            elif role == 'reverse':
+                want_lit = b'literal;path=/rl/p%d' % i
+                if m['code'] != 200 or m['body'] != want_lit:
+                    out.append(('wrong-literal-reply', dict(feat, index=min(i, 2)), {'i': i, 'code': m['code'], 'body': m['body'][:80]}, {'body': want_lit}))
+                    break
             else:
                 if q['to'] == 'route':
                     want_body, code = stream(q['size'], i), 200
@@ -246,7 +258,10 @@ def evaluate(c: Dict[str, Any]) -> Tuple[List[Any], Dict[str, Any]]:
                     out.append(('origin-received-partial-or-garbage', feat, {'origin': o.name, 'bytes': o.unparsed[:80], 'bad': o.bad}, None))
             wantseen: Dict[Tuple[str, int], List[bytes]] = {}
             for i, q in enumerate(c['requests']):
-                host, port, line = expected_upstream(role, q, i)     # type: ignore[misc]
+                eu2 = expected_upstream(role, q, i)
+                if eu2 is None:
+                    continue
+                host, port, line = eu2
                 wantseen.setdefault((host, port), []).append(b'%d ' % i + line)
             if seen != wantseen and not out:
                 out.append(('origins-saw-wrong-requests', feat, {'%s:%d' % k_: v for k_, v in seen.items()},
@@ -279,7 +294,7 @@ def cases(draw: Any, role: str) -> Dict[str, Any]:
             q['size'] = draw(st.sampled_from([0, 1, 19, 20, 21, 300, 5000, 70000]))
             q['pieces'] = draw(st.sampled_from([1, 1, 2, 5]))
         else:
-            q['to'] = draw(st.sampled_from(['a', 'a', 'b']))
+            q['to'] = draw(st.sampled_from(['a', 'a', 'b'] + (['lit'] if role == 'reverse' else [])))
         q['body'] = draw(st.sampled_from([0, 0, 0, 1, 10, 300, 70000]))
         if role != 'forward' and draw(st.integers(0, 7)) == 0:
             q['no_host'] = True        # origin-form request without a Host field (what an HTTP/1.0-style client sends)
